@@ -25,6 +25,10 @@ type GenOpts struct {
 	MaxDepth int
 	ZeroPct  int // probability (percent) that a struct field is left at zero
 	NoMulti  bool // maps get at most one entry
+	// NonCanonical also produces values that plenc normalises on the way
+	// through (times outside UTC). Only for operations whose oracle does not
+	// need the round trip to be the identity.
+	NonCanonical bool
 }
 
 type gen struct {
@@ -133,6 +137,9 @@ func (g *gen) time() time.Time {
 	t := time.Unix(sec, ns).UTC()
 	if t.IsZero() {
 		t = time.Unix(5, 5).UTC()
+	}
+	if g.o.NonCanonical && g.r.Intn(2) == 0 {
+		t = t.In(time.FixedZone("sim", 3600*(1+g.r.Intn(5))))
 	}
 	return t
 }
